@@ -9,6 +9,7 @@ import (
 
 // CEnv is the context in which a contract expression is evaluated.
 type CEnv struct {
+	ttypes  map[string]types.Type // callee type parameter name -> type argument at the call
 	names   map[string]Term // parameters, ghosts, bound variables
 	st      *State          // current state
 	old     *State          // pre-state for old(...)
@@ -428,13 +429,18 @@ func (x *Exec) cfield(env *CEnv, b Term, name string) Term {
 		for i, f := range si.Fields {
 			if f == name {
 				t := tApp(si.FSorts[i], b.Sort+"_"+sanitize(f), b)
-				if st, ok := si.Go.Underlying().(*types.Struct); ok {
-					t.Ty = st.Field(i).Type()
+				if si.Go != nil {
+					if st, ok := si.Go.Underlying().(*types.Struct); ok {
+						t.Ty = st.Field(i).Type()
+					}
 				}
 				return t
 			}
 		}
 		// promoted through embedded struct fields
+		if si.Go == nil {
+			x.cfail(env, "struct sort %s has no field %s", b.Sort, name)
+		}
 		if st, ok := si.Go.Underlying().(*types.Struct); ok {
 			for i := 0; i < st.NumFields(); i++ {
 				if st.Field(i).Embedded() {
@@ -896,6 +902,119 @@ func init() {
 			x.d.instantiate("TraceToList", map[string]string{"T": tr.Sort, "L": ls})
 			return tApp(ls, "tolist_"+tr.Sort, tr)
 		},
+		// ---- reflect layout / hseq ----
+		"rtypeof": func(x *Exec, env *CEnv, e CCall, want string) Term {
+			id, ok := e.Args[0].(CIdent)
+			if !ok {
+				x.cfail(env, "rtypeof(T) needs a type parameter name")
+			}
+			if env.ttypes != nil {
+				if t, ok := env.ttypes[id.Name]; ok {
+					if r, ok := x.rtypeOf(t); ok {
+						return r
+					}
+					x.cfail(env, "rtypeof(%s): type argument %v is not supported", id.Name, t)
+				}
+			}
+			if tp, ok := x.typeParamObjs[id.Name]; ok {
+				r, _ := x.rtypeOf(tp)
+				return r
+			}
+			x.cfail(env, "rtypeof: unknown type parameter %s", id.Name)
+			return Term{}
+		},
+		"isstruct": func(x *Exec, env *CEnv, e CCall, want string) Term {
+			x.reflectSort()
+			return tApp("Bool", "(_ is rt_struct)", x.ceval(env, e.Args[0], "RType"))
+		},
+		"isptr": func(x *Exec, env *CEnv, e CCall, want string) Term {
+			x.reflectSort()
+			return tApp("Bool", "(_ is rt_ptr)", x.ceval(env, e.Args[0], "RType"))
+		},
+		"pureof": func(x *Exec, env *CEnv, e CCall, want string) Term {
+			t := x.ceval(env, e.Args[0], "RType")
+			x.hseqTheory(env, "")
+			return tApp("RType", "pureof", t)
+		},
+		"fieldsof": func(x *Exec, env *CEnv, e CCall, want string) Term {
+			x.reflectSort()
+			return tApp(lsfSort, "rt_fields", x.ceval(env, e.Args[0], "RType"))
+		},
+		"flatten": func(x *Exec, env *CEnv, e CCall, want string) Term {
+			ht := x.hseqTheory(env, want)
+			fs := x.ceval(env, e.Args[0], lsfSort)
+			off := x.ceval(env, e.Args[1], "Int")
+			acc := x.ceval(env, e.Args[2], x.d.ListOf(ht))
+			return tApp(x.d.ListOf(ht), "flatten_"+ht, fs, off, acc)
+		},
+		// validloc(t, off, a): (off, a) is a field location of struct type t reachable without
+		// crossing a pointer; fget/fput(s, off, A[, v]): typed field access on a struct value
+		"validloc": func(x *Exec, env *CEnv, e CCall, want string) Term {
+			x.reflectSort()
+			x.d.instantiate("Layout", map[string]string{})
+			t := x.ceval(env, e.Args[0], "RType")
+			o := x.ceval(env, e.Args[1], "Int")
+			a := x.ceval(env, e.Args[2], "RType")
+			return tApp("Bool", "validloc", t, o, a)
+		},
+		"validfield": func(x *Exec, env *CEnv, e CCall, want string) Term {
+			x.reflectSort()
+			x.d.instantiate("Layout", map[string]string{})
+			fs := x.ceval(env, e.Args[0], lsfSort)
+			o := x.ceval(env, e.Args[1], "Int")
+			a := x.ceval(env, e.Args[2], "RType")
+			return tApp("Bool", "validfield", fs, o, a)
+		},
+		"fget": func(x *Exec, env *CEnv, e CCall, want string) Term {
+			s := x.ceval(env, e.Args[0], "")
+			o := x.ceval(env, e.Args[1], "Int")
+			as := x.resolveSort(env, e.Args[2].(CIdent).Name)
+			fg, _ := x.fieldAccess(s.Sort, as)
+			return tApp(as, fg, s, o)
+		},
+		"fput": func(x *Exec, env *CEnv, e CCall, want string) Term {
+			s := x.ceval(env, e.Args[0], "")
+			o := x.ceval(env, e.Args[1], "Int")
+			v := x.ceval(env, e.Args[2], "")
+			_, fp := x.fieldAccess(s.Sort, v.Sort)
+			return tApp(s.Sort, fp, s, o, v)
+		},
+		// dynptr(x, S): the dynamic type of interface value x is *S (and x is not nil)
+		"dynptr": func(x *Exec, env *CEnv, e CCall, want string) Term {
+			r := x.ceval(env, e.Args[0], "Ref")
+			id := e.Args[1].(CIdent)
+			var t types.Type
+			if env.ttypes != nil {
+				t = env.ttypes[id.Name]
+			}
+			if t == nil {
+				if tp, ok := x.typeParamObjs[id.Name]; ok {
+					t = tp
+				}
+			}
+			if t == nil {
+				x.cfail(env, "dynptr: unknown type parameter %s", id.Name)
+			}
+			x.d.fun("dyn", []string{"Ref"}, "Int")
+			return tAnd(tNot(tEq(r, nullRef)), tEq(tApp("Int", "dyn", r), x.typeTag(types.NewPointer(t))))
+		},
+		// asptr(x, S): the interface value x seen as a *S
+		"asptr": func(x *Exec, env *CEnv, e CCall, want string) Term {
+			r := x.ceval(env, e.Args[0], "Ref")
+			id := e.Args[1].(CIdent)
+			if tp, ok := x.typeParamObjs[id.Name]; ok {
+				r.Ty = types.NewPointer(tp)
+			} else if env.ttypes != nil && env.ttypes[id.Name] != nil {
+				r.Ty = types.NewPointer(env.ttypes[id.Name])
+			}
+			return r
+		},
+		"fieldkey":  func(x *Exec, env *CEnv, e CCall, want string) Term { return x.cHseq(env, e, "fieldkey") },
+		"hasname":   func(x *Exec, env *CEnv, e CCall, want string) Term { return x.cHseq(env, e, "hasname") },
+		"firstname": func(x *Exec, env *CEnv, e CCall, want string) Term { return x.cHseq(env, e, "firstname") },
+		"hastype":   func(x *Exec, env *CEnv, e CCall, want string) Term { return x.cHseq(env, e, "hastype") },
+		"firsttype": func(x *Exec, env *CEnv, e CCall, want string) Term { return x.cHseq(env, e, "firsttype") },
+		"allhave":   func(x *Exec, env *CEnv, e CCall, want string) Term { return x.cHseq(env, e, "allhave") },
 		"mfwd": func(x *Exec, env *CEnv, e CCall, want string) Term { return x.cMorph(env, e, true) },
 		"minv": func(x *Exec, env *CEnv, e CCall, want string) Term { return x.cMorph(env, e, false) },
 		"zero": func(x *Exec, env *CEnv, e CCall, want string) Term {
@@ -951,6 +1070,81 @@ func mentionsState(e CExpr) bool {
 		}
 	}
 	return false
+}
+
+// hseqTheory instantiates the Hseq template for the hseq.Type sort in use (taken from the
+// wanted list sort, or the only hseq.Type sort declared so far).
+func (x *Exec) hseqTheory(env *CEnv, want string) string {
+	x.reflectSort()
+	ht := ""
+	if si := x.d.sorts[want]; si != nil && si.Kind == "list" {
+		ht = si.Elem
+	}
+	if ht == "" {
+		for _, so := range sortedKeys(x.d.sorts) {
+			if strings.HasPrefix(so, "S_github.com_fogfish_golem_hseq.Type") {
+				ht = so
+			}
+		}
+	}
+	if ht == "" {
+		// instantiate hseq.Type with the container type parameter T of the unit / call
+		if hp, err := x.ld.Load("github.com/fogfish/golem/hseq"); err == nil {
+			if tn, ok := hp.Types.Scope().Lookup("Type").(*types.TypeName); ok {
+				var targ types.Type
+				if env.ttypes != nil {
+					targ = env.ttypes["T"]
+				}
+				if targ == nil {
+					if tp, ok := x.typeParamObjs["T"]; ok {
+						targ = tp
+					}
+				}
+				if targ != nil {
+					if inst, err := types.Instantiate(nil, tn.Type(), []types.Type{targ}, false); err == nil {
+						ht = x.sortOf(inst)
+					}
+				}
+			}
+		}
+	}
+	if ht == "" {
+		x.cfail(env, "no hseq.Type sort in scope")
+	}
+	si := x.d.sorts[ht]
+	x.d.ListOf("Str")
+	x.d.instantiate("Hseq", map[string]string{"HT": ht, "LHT": x.d.ListOf(ht), "MK": si.Ctor,
+		"S_HSEQ": x.strLit("hseq").S, "S_COMMA": x.strLit(",").S})
+	return ht
+}
+
+func (x *Exec) cHseq(env *CEnv, e CCall, name string) Term {
+	a := x.ceval(env, e.Args[0], "")
+	switch name {
+	case "fieldkey":
+		ht := x.hseqTheory(env, x.d.ListOf(a.Sort))
+		return tApp("Str", "fieldkey_"+ht, a)
+	}
+	ht := x.hseqTheory(env, a.Sort)
+	switch name {
+	case "hasname", "firstname":
+		b := x.ceval(env, e.Args[1], "Str")
+		if name == "hasname" {
+			return tApp("Bool", "hasname_"+ht, a, b)
+		}
+		return tApp(ht, "firstname_"+ht, a, b)
+	case "hastype", "firsttype":
+		b := x.ceval(env, e.Args[1], "RType")
+		if name == "hastype" {
+			return tApp("Bool", "hastype_"+ht, a, b)
+		}
+		return tApp(ht, "firsttype_"+ht, a, b)
+	case "allhave":
+		b := x.ceval(env, e.Args[1], x.d.ListOf("Str"))
+		return tApp("Bool", "allhave_"+ht, a, b)
+	}
+	x.cfail(env, "unknown hseq function %s", name)
+	return Term{}
 }
 
 // cTraceF: spec functions over a stage-function instance f (an interface value with a
